@@ -143,7 +143,7 @@ PosClass(Z, t) ==
 (* ------------------------------ Part 5: provider ------------------------------ *)
 (* disk  : identifier -> table | Missing      the files (environment; the provider only reads them)   *)
 (* cache : identifier -> table                the provider's memo, a subset of the files it has read  *)
-(* hist  : sequence of queries answered since the provider was created                                *)
+(* hist  : sequence of queries answered since the provider was created (kept only when Once)          *)
 (* last  : the last query and its answer                                                              *)
 (* A query is [zone, kind : "offset" | "local", at : point].                                          *)
 CONSTANTS Disk0,          \* initial files (MC instances); << >>-like empty function for traces
@@ -169,11 +169,13 @@ AnswerIn(c, d, q) == IF q.zone \in DOMAIN c THEN Eval(c[q.zone], q) ELSE DataSay
 
 Init == disk = Disk0 /\ cache = Empty /\ hist = <<>> /\ last = None
 
-Query(q) ==
-  /\ last' = [op |-> "query", q |-> q, ans |-> AnswerIn(cache, disk, q), hit |-> q.zone \in DOMAIN cache]
+\* the provider answers `ans` to q and memoises the file it had to read
+QueryWith(q, ans) ==
+  /\ last' = [op |-> "query", q |-> q, ans |-> ans, hit |-> q.zone \in DOMAIN cache]
   /\ cache' = IF q.zone \in DOMAIN cache \/ ~OnDisk(disk, q.zone) THEN cache ELSE Put(cache, q.zone, disk[q.zone])
-  /\ hist' = Append(hist, q)
+  /\ hist' = IF Once THEN Append(hist, q) ELSE hist
   /\ UNCHANGED disk
+Query(q) == QueryWith(q, AnswerIn(cache, disk, q))
 NewProvider == cache' = Empty /\ hist' = <<>> /\ last' = [op |-> "new"] /\ UNCHANGED disk
 
 Next == /\ (OneStep => last = None)
